@@ -355,3 +355,70 @@ func DumpThesaurus(ts segment.ThesaurusSegment, name string, except *roaring.Bit
 	}
 	return rv, nil
 }
+
+// IteratorAcrossLists: a searcher keeps the postings lists it obtained (one per term) and recycles ONE
+// iterator object over them: list A (no exclusions) is iterated, the iterator is then recycled for
+// list B obtained with an exclusion bitmap, and afterwards list A is read again - its Count and its
+// hits must be what they were.
+func IteratorAcrossLists(s segment.Segment, c *Content) (bad string) {
+	defer func() {
+		if r := recover(); r != nil {
+			bad = fmt.Sprintf("PANIC while one iterator is recycled across kept postings lists: %v", r)
+		}
+	}()
+	for _, fd := range c.Dicts {
+		if len(fd.Terms) < 2 {
+			continue
+		}
+		d, err := s.Dictionary(fd.Field)
+		if err != nil {
+			return err.Error()
+		}
+		ta, tb := fd.Terms[0], fd.Terms[len(fd.Terms)-1]
+		drain := func(pl segment.PostingsList, it segment.PostingsIterator) ([]uint64, segment.PostingsIterator, error) {
+			it = pl.Iterator(true, true, false, it)
+			var docs []uint64
+			for {
+				p, err := it.Next()
+				if err != nil {
+					return nil, it, err
+				}
+				if p == nil {
+					return docs, it, nil
+				}
+				docs = append(docs, p.Number())
+			}
+		}
+		la, err := d.PostingsList([]byte(ta.Term), nil, nil)
+		if err != nil {
+			return err.Error()
+		}
+		docsA, it, err := drain(la, nil)
+		if err != nil {
+			return err.Error()
+		}
+		except := roaring.New()
+		if len(tb.Hits) > 0 {
+			except.Add(uint32(tb.Hits[0].Doc))
+		}
+		lb, err := d.PostingsList([]byte(tb.Term), except, nil)
+		if err != nil {
+			return err.Error()
+		}
+		docsB, it, err := drain(lb, it)
+		if err != nil {
+			return err.Error()
+		}
+		if len(docsB) != len(tb.Hits)-1 && len(tb.Hits) > 0 {
+			return fmt.Sprintf("%s/%q with its first document excluded, through an iterator recycled from %q: %d hits, want %d", fd.Field, tb.Term, ta.Term, len(docsB), len(tb.Hits)-1)
+		}
+		docsA2, _, err := drain(la, nil)
+		if err != nil {
+			return err.Error()
+		}
+		if fmt.Sprint(docsA2) != fmt.Sprint(docsA) || la.Count() != uint64(len(ta.Hits)) || len(docsA) != len(ta.Hits) {
+			return fmt.Sprintf("the postings list of %s/%q (kept by the caller, no exclusions) yields documents %v (Count %d) after its iterator was recycled for %q with an exclusion bitmap; before that it yielded %v; the term has %d hits", fd.Field, ta.Term, docsA2, la.Count(), tb.Term, docsA, len(ta.Hits))
+		}
+	}
+	return ""
+}
